@@ -6,6 +6,7 @@ import z3
 
 from . import bridge as bridge_mod
 from . import driver
+from . import genprog
 from . import tff
 from .c02 import TASKS as EXT_TASKS, run_task
 from .c03 import PROGRAMS, copy_names
@@ -34,12 +35,15 @@ SYMBOL_TASKS = [
     ('q(q, q0, q_, qA).', 'q(q, q0, q_, qA) :- not r(q, r, r1).'),
     ('r :- p(hp, tp), hp1 < hp, tp_ < tp.', 'r :- p(hp, tp).'),
     ('p(p, p) :- p. p :- p(p0, p__s).', 'p(p, p) :- p, not p(p0, p__s).'),
+    ('q(X) :- p(X), hs >= X, hs0 != X. s :- p(hs).', 'q(X) :- p(X), X <= hs, X != hs0. s :- p(hs).'),
 ]
 EXT_SYMBOL_TASKS = [
     ('renamed-symbol-order', 'program', 'q :- p < p0, p.', 'q :- p < p0, p, not r. r :- not p.', 'input: p/0. output: q/0.'),
     ('symbol-named-like-unary-predicate', 'program', 'r :- p(p), p1 < p.', 'r :- p(p).', 'input: p/1. output: r/0.'),
     ('symbol-named-like-private-binary-predicate', 'program', 'aux(aux, aux0) :- p(aux_). r :- aux(aux, auxA).',
      'r :- p(aux_), aux = aux, auxA = aux0.', 'input: p/1. output: r/0.'),
+    ('renamed-symbol-in-every-comparison-position', 'program', 'p(X) :- q(X), r >= X. r :- q(r). p(X) :- q(X), r0 < r, r < X, X != r.',
+     'p(X) :- q(X), X <= r. r :- q(r). p(X) :- q(X), r > r0, X > r, r != X.', 'input: q/1. output: p/1. output: r/0.'),
     ('renamed-symbol-between', 'program', 'q(p, p0, p_, pa) :- p.', 'q(p, p0, p_, pa) :- p, not r. r :- not p.', 'input: p/0. output: q/4.'),
 ]
 
@@ -53,6 +57,8 @@ def generate(tier, seed):
     rnd.shuffle(pairs)
     for (l, r) in pairs[:30 if tier == 'quick' else 400]:
         items.append({'family': 'strong-corpus', 'kind': 'strong', 'left': l, 'right': r, 'label': '%s || %s' % (l, r)})
+    for (l, r) in genprog.pairs(seed + 2, 25 if tier == 'quick' else 800, arithmetic=False):
+        items.append({'family': 'strong-generated', 'kind': 'strong', 'left': l, 'right': r, 'label': '%s || %s' % (l, r)})
     for t in EXT_SYMBOL_TASKS + list(EXT_TASKS):
         items.append({'family': 'external-corpus', 'kind': 'external', 'task': t, 'label': t[0]})
     return items
@@ -286,7 +292,7 @@ def replay(r):
 
 def describe(tier):
     return {
-        'rule': 'the 15 axioms of the preamble; the symbol_order axioms and chains of every problem of 9 strong tasks chosen for their '
+        'rule': 'the 15 axioms of the preamble; grammar-generated strong tasks over a confusable name pool (av/genprog.py); tasks with constants named like predicates of any arity, like here/there copies, in every comparison position; the symbol_order axioms and chains of every problem of 9 strong tasks chosen for their '
                 'symbols (prefix-related names, names around a renamed symbol, many symbols, a single symbol, none), of a seeded '
                 'sample of the strong corpus and of the external corpus; the transition axioms of every strong task (validity and '
                 'coverage); one obligation per axiom, chain and task',
